@@ -592,6 +592,32 @@ def run(c):
             c.seen("depth 4")
     if set(KIND_OF.values()) <= kinds_seen:
         c.seen("every field kind present")
+    # float sweep in the executor: every stride-th f32 bit pattern (and the same value widened to f64) through the typed list
+    # writers and readers, compared bit for bit; the offset depends on the seed, stride 1 (VERIF_FSWEEP_STRIDE=1) is exhaustive
+    import subprocess, os
+    from .. import build
+    stride = int(os.environ.get("VERIF_FSWEEP_STRIDE", "1021" if c.quick else "7"))
+    c.need("float sweep")
+    try:
+        p = subprocess.run([build.harness("rel"), "fsweep", str(stride), str(c.seed % stride), "16"], stdout=subprocess.PIPE, stderr=subprocess.DEVNULL, timeout=7200)
+        out = p.stdout.decode("utf-8", "replace")
+    except subprocess.TimeoutExpired:
+        out = ""
+    m = re.search(r"FSWEEP values=(\d+) mismatches=(\d+)", out)
+    if not m:
+        c.inconc("float sweep did not finish")
+    else:
+        c.ev(int(m.group(1)))
+        c.count("float_sweep_values", int(m.group(1)))
+        c.extra["float_sweep"] = {"stride": stride, "offset": c.seed % stride, "values": int(m.group(1)), "exhaustive": stride == 1}
+        c.cls("float-sweep", stride)
+        c.seen("float sweep")
+        for ln in out.splitlines():
+            if ln.startswith("FMISMATCH"):
+                w = ln.split()
+                kind, bits, textv, back = w[1], w[2], w[3], w[4]
+                c.violation("C19:roundtrip:float-sweep:%s:%s" % (kind, "error" if back in ("Err", "PANIC") or back.startswith("len") else "value-differs"),
+                            "%s value with bits %s (%s) written by the list serialiser reads back as %s" % (kind, bits, textv, back), {"kind": kind, "bits": bits, "text": textv, "read_back": back})
     # concurrent FIRST use of the serialiser / parser in fresh processes (ASCII values of every field kind)
     simple = [v for v in values[:4000] if v and all(not isinstance(x, str) or x.isascii() and not any(ch in x for ch in "{}[]") for x in v.values()) and "ls" not in v and "o" not in v and "a" not in v][:12]
     core.cold_race_check(c, "C19", [core.Case("cr%d" % i, "json.roundtrip", encode(v)) for i, v in enumerate(simple)], trials=30 if c.quick else 600)
